@@ -258,7 +258,7 @@ struct Shrinker {
 	bool fails(const Plan &p) {
 		if (execs >= budget) return false;
 		++execs;
-		Result r = exec_child(w, p, 1);
+		Result r = exec_child(w, p, 5);
 		return r.sig == sig;
 	}
 	bool ddmin_ops(Plan &p) {
@@ -404,7 +404,7 @@ static bool flag(int argc, char **argv, const char *name) {
 
 static int finish_violation(World &w, Plan &p, const Result &first, const char *out, unsigned budget) {
 	// gate 1: same plan twice gives same signature and hash
-	Result r1 = exec_child(w, p, 4), r2 = exec_child(w, p, 4);
+	Result r1 = exec_child(w, p, 20), r2 = exec_child(w, p, 20);
 	if (r1.sig != r2.sig || r1.hash != r2.hash || r1.sig.empty()) {
 		printf("NONDET first=%s again=%s/%s hash %016llx/%016llx\n", first.sig.c_str(), r1.sig.c_str(), r2.sig.c_str(),
 		       (unsigned long long) r1.hash, (unsigned long long) r2.hash);
@@ -413,7 +413,7 @@ static int finish_violation(World &w, Plan &p, const Result &first, const char *
 	size_t ops0 = p.ops.size();
 	Shrinker sh(w, r1.sig, budget);
 	sh.run(p);
-	Result rf = exec_child(w, p, 4);
+	Result rf = exec_child(w, p, 20);
 	if (rf.sig != r1.sig) { printf("NONDET shrunk plan lost signature\n"); return 2; }
 	p.expect = rf.sig;
 	char hb[32]; snprintf(hb, sizeof hb, "%016llx", (unsigned long long) rf.hash); p.hash = hb;
@@ -452,7 +452,7 @@ int sim_main(int argc, char **argv) {
 			if (budget > 0 && (k & 7) == 0 && now_s() - t0 > budget) break;
 			printf("S %llu\n", (unsigned long long) i);
 			if (flush_each) fflush(stdout);      // keeps the seed markers in order with what a tool like valgrind writes to stderr
-			arm_watchdog(4);
+			arm_watchdog(20);
 			Plan p = make_plan(w, base, i, tier);
 			Result r = run_plan(w, p, false, st);
 			disarm_watchdog();
